@@ -72,9 +72,9 @@ Qed.
 (* one faulty operation changes at most its own path *)
 Lemma short_step_agree : forall j o fs, agree_except (op_path o) fs (fst (short_step j o fs)).
 Proof.
-  intros j o fs. destruct o; cbn; try apply agree_refl.
-  destruct (Nat.ltb j (length b)).
-  - destruct (fs p); cbn; [apply agree_upd|apply agree_refl].
+  intros j o fs. destruct o; try (cbn; apply agree_refl).
+  unfold short_step. destruct (Nat.ltb j (length b)).
+  - destruct (fs p); cbn [fst op_path]; [apply agree_upd|apply agree_refl].
   - apply (step_agree (OWrite p off b)).
 Qed.
 
